@@ -156,8 +156,6 @@ Definition registered (s : ident) : bool :=
   | _ => false
   end.
 
-Definition name_char (b : N) : bool :=
-  is_digit b || ((65 <=? b) && (b <=? 90)) || ((97 <=? b) && (b <=? 122)) || (b =? 95).
 Definition ident_like (s : bytes) : bool := match s with [] => false | _ => forallb name_char s end.
 Fixpoint names_ok (n : Node) : bool :=
   match n with
@@ -193,7 +191,7 @@ Definition run_doc (fx : bool) (mode : N) (rd : raw_doc) : list N :=
   | OutOfFuel => [8]
   | Ok d =>
     match cands fx d with
-    | _ :: _ as ks => 2 :: dedup_sorted ks
+    | (_ :: _) as ks => 2 :: dedup_sorted ks
     | [] =>
       match transform fx d with
       | Ok n => 1 :: ser_node n ++ (if N.odd mode then run_build d n else [])
